@@ -497,7 +497,7 @@ def check_voxel(case, ctx):
     f_ = 1.0
     if rng.random() < 0.25:
         # the same model in another unit of length (an exact power of two): the same voxels are filled
-        f_ = 2.0 ** rng.choice([-20, -24, -30, 20])
+        f_ = 2.0 ** rng.choice([-20, -24, -30, 20, 32, 36])        # (seventh hunt: 2^32, 2^36 - the default padding must not vanish beside the coordinates)
         sd['ctrlpts'] = [[c * f_ for c in p_] for p_ in sd['ctrlpts']]
         ctx.tag('vox:other-unit-of-length')
     o = G.build(sd)
@@ -548,6 +548,9 @@ def check_voxel(case, ctx):
     if len(grid) > 0:
         slack = [2e-6 * (grid[0][1][ax] - grid[0][0][ax]) if grid[0][1][ax] - grid[0][0][ax] > 1e-9 * emax_ else 2e-7 * min(1.0, emax_)
                  for ax in range(3)]
+        # (never below a few ulps of the coordinates themselves: a model 2^36 times as large has coordinates whose ulp is 1e-5)
+        cmax_ = max(abs(c_) for c_ in list(bb[0]) + list(bb[1]))
+        slack = [max(s_, 16.0 * math.ulp(cmax_)) for s_ in slack]
     tol = 1e-7 * min(1.0, emax_)
     if not ctx.check(len(grid) == len(filled) and len(grid) > 0, 'voxel/length', 'len(grid)=%d len(filled)=%d' % (len(grid), len(filled)),
                      what='voxel-cover'):
@@ -572,7 +575,12 @@ def check_voxel(case, ctx):
         if not ctx.check(cov, 'voxel/point-not-covered', 'sampled point %r lies in no voxel of the grid' % (p,), what='voxel-cover'):
             break
     for i, v in enumerate(grid):
-        strict = any(all(v[0][k] + slack[k] < p[k] < v[1][k] - slack[k] for k in range(3)) for p in pts)
+        # (along an axis on which the voxel is flat - a planar shape - a point is inside when it has that very coordinate: seventh hunt)
+        def inside_strictly(p, k):
+            if v[1][k] - v[0][k] <= 1e-9 * emax_:
+                return abs(p[k] - v[0][k]) <= 4.0 * math.ulp(max(abs(v[0][k]), 1e-300))
+            return v[0][k] + slack[k] < p[k] < v[1][k] - slack[k]
+        strict = any(all(inside_strictly(p, k) for k in range(3)) for p in pts)
         loose = any(all(v[0][k] - slack[k] <= p[k] <= v[1][k] + slack[k] for k in range(3)) for p in pts)
         if strict and not filled[i]:
             ctx.fail('voxel/not-filled', 'voxel %d [%r, %r] contains a sampled point but filled = %r' % (i, v[0], v[1], filled[i]))
